@@ -78,6 +78,8 @@ def shape(td):
             return None
         return "M" + a + b
     if k == "reg":
+        if td["name"] not in REG:
+            return None           # a registered type outside the model's registry (Key, HKey, Node, Rec)
         fs = [(n, shape(t)) for n, t in REG[td["name"]]]
         return "S" + td["name"].encode().hex() + "{" + ";".join(n.encode().hex() + ":" + s for n, s in fs) + "}"
     if k == "anon":
@@ -119,6 +121,7 @@ SITE_KEY = {
     "objmap-key": "fatal:memory-corruption:io.mapDecoder.decodeObjectAsMap",
     "client-count": "core.clientCodec.Decode:index-out-of-range",
     "array-neg": "io.arrayDecoder.Decode:out-of-bounds-write",
+    "big-exp": "overalloc:io.Decoder.decodeBigInt",      # or io.Decoder.stringToBigRat: a cost failure, not a panic
 }
 FATAL_SITES = {"objmap-key", "array-neg"}      # the runtime dies (or the heap is silently damaged): such cases run in a process of their own
 
@@ -238,7 +241,34 @@ def impl_verdict(case, o, crash):
 
 # ------------------------------------------------------------------ running both sides
 
+def has_iface(td):
+    """does a value of this type hold an interface{} anywhere (the only place the decoder options act)"""
+    if td is None:
+        return False
+    k = td["k"]
+    if k == "iface":
+        return True
+    if k == "reg":
+        return td["name"] != "Pt"
+    if k == "anon":
+        return any(has_iface(f["t"]) for f in td["fields"])
+    return has_iface(td.get("e")) or has_iface(td.get("key"))
+
+
+def modelled(c):
+    """the Coq model covers the hprose codec with the default decoder options; the options (ListType, StructType,
+    MapType, LongType, RealType) only act where a value is decoded into interface{}"""
+    if c["entry"] not in ("unmarshal", "service", "client"):
+        return False
+    if c.get("o"):
+        if c["entry"] != "unmarshal" or has_iface(c["t"]):
+            return False
+    return True
+
+
 def model_line(c, fixbits, checked, table):
+    if not modelled(c):
+        return None
     ent = {"unmarshal": "U", "service": "S", "client": "C"}[c["entry"]]
     if ent == "U":
         mode = "s" if c.get("mode") != "ref" else "r"
@@ -438,6 +468,8 @@ def calibrate(ctx):
         "objmap-key": U('c2"Pt"1{s1"x"}o0{1}', {"k": "map", "key": I, "e": I}),
         "array-neg": U("a-100000000{}", {"k": "array", "n": 2, "e": {"k": "int"}}),
         "client-count": {"entry": "client", "hex": b"Ra-1{}z".hex(), "rt": [{"k": "int"}, {"k": "int"}]},
+        "big-exp": U("d1e100000000;", {"k": "bigint"}),
+        "big-exp/rat": U('s9"1e1000000"', {"k": "bigrat"}),
         # behavioural repairs (a count that is negative or larger than the bytes left is refused, per site)
         "fx_count-slice": U("a-1{}", {"k": "slice", "e": {"k": "int"}}),
         "fx_count-map": U("m-1{}"),
@@ -482,11 +514,17 @@ def calibrate(ctx):
             elif key == "strmap":
                 fx[key] = "map[" not in (o.get("dump") or "")
             detail[n] = None if o is None else (o["outcome"], o.get("errclass"), o["alloc"], o.get("dump"))
+        elif n.startswith("big-exp"):
+            # a cost failure, not a panic: the repaired tree refuses the text instead of building the number
+            detail[n] = None if o is None else (o["outcome"], o["alloc"])
         else:
             is_panic = (o is None) or o["outcome"] == "panic"
             if not is_panic:
                 checked.append(n)
             detail[n] = "panics" if is_panic else "checked"
+    if all(obs.get(i) is not None and obs[i]["outcome"] == "error" and obs[i]["alloc"] < (1 << 16)
+           for i, n in enumerate(names) if n.startswith("big-exp")):
+        checked.append("big-exp")
     # where a negative count panics in the pinned code, the count repair and the hazard check are one and the same
     for key, site in (("count-names", "make-neg-names"), ("count-uint8", "make-neg-uint8"), ("count-args", "make-neg-args"),
                       ("count-array", "array-neg")):
@@ -536,7 +574,7 @@ class Gen:
 
     def add(self, gen, base, data, **over):
         c = {"entry": base["entry"], "hex": data.hex()}
-        for k in ("t", "mode", "svc", "rt"):
+        for k in ("t", "mode", "svc", "rt", "o"):
             if k in base:
                 c[k] = base[k]
         c.update(over)
@@ -688,10 +726,247 @@ def generate(ctx, seeds):
         g.add("announce", {"entry": "service", "svc": "b"}, ('Cs3"xyz"a%s{' % v).encode())
         g.add("announce", {"entry": "client", "rt": [II, II]}, ('Ra%s{' % v).encode())
         g.add("announce", {"entry": "client", "rt": [{"k": "slice", "e": II}]}, ('Ra%s{' % v).encode())
+        for tmpl in ('m%s{s1"x"1', 'm%s{s1"x"1s1"y"2}', 'm%s{s1"x"'):
+            for dest in ({"k": "reg", "name": "Pt"}, {"k": "ptr", "e": {"k": "reg", "name": "Pt"}},
+                         {"k": "anon", "fields": [{"n": "X", "t": II}, {"n": "Y", "t": II}]}):
+                g.add("announce", {"entry": "unmarshal", "t": dest, "mode": "simple"}, (tmpl % v).encode())
+    generate_wide(ctx, g, seeds)
     return g
 
 
+# ------------------------------------------------------------------ beyond the default configuration
+
+OPT_SPACE = {"list": 2, "struct": 2, "map": 2, "long": 5, "real": 3}
+
+
+def all_opts():
+    out = []
+    for l in range(2):
+        for st in range(2):
+            for m in range(2):
+                for lg in range(5):
+                    for r in range(3):
+                        o = {k: v for k, v in (("list", l), ("struct", st), ("map", m), ("long", lg), ("real", r)) if v}
+                        if o:
+                            out.append(o)
+    return out
+
+
+def one_opts():
+    """every option alone at every non-default value"""
+    return [{k: v} for k, n in sorted(OPT_SPACE.items()) for v in range(1, n)]
+
+
+S_ = {"k": "string"}
+
+
+def ST(*fs):
+    return {"k": "anon", "fields": [{"n": n, "t": t} for n, t in fs]}
+
+
+CYCLE_VALUES = [            # %c: a reference that may close a cycle
+    'a1{%c}', 'm1{s1"k"%c}', 'm1{1%c}', 'c1"A"1{s1"a"}o0{%c}',
+    'a1{m1{s1"k"%c}}', 'a1{c1"A"1{s1"a"}o0{%c}}', 'm1{s1"k"a1{%c}}', 'a2{m1{1%c}m1{2%c}}',
+    'c4"User"1{s5"extra"}o0{%c}', 'c4"User"1{s5"extra"}o0{m1{1%c}}', 'a1{c4"User"1{s5"extra"}o0{a1{m1{1%c}}}}',
+    'c4"Node"2{s4"next"s3"any"}o0{%c%c}', 'c4"Node"1{s4"dict"}o0{m1{s1"k"%c}}', 'c4"Node"1{s4"kids"}o0{a1{%c}}',
+    'c4"Node"1{s3"any"}o0{m1{1%c}}', 'c2"Pt"2{s1"x"s1"y"}o0{1%c}',
+]
+CYCLE_DESTS = [             # (entry, destination, template with %v value and %s converting reference, options)
+    ("unmarshal", ST(("A", I_), ("B", S_)), 'm2{s1"a"%vs1"b"%s}', None),
+    ("unmarshal", ST(("A", I_), ("B", {"k": "slice", "e": S_})), 'm2{s1"a"%vs1"b"a1{%s}}', None),
+    ("unmarshal", ST(("A", I_), ("B", {"k": "map", "key": S_, "e": {"k": "int"}})), 'm2{s1"a"%vs1"b"m1{%s1}}', None),
+    ("unmarshal", ST(("A", I_), ("B", {"k": "map", "key": {"k": "int"}, "e": S_})), 'm2{s1"a"%vs1"b"m1{1%s}}', None),
+    ("unmarshal", ST(("A", I_), ("B", {"k": "ptr", "e": S_})), 'm2{s1"a"%vs1"b"%s}', None),
+    ("unmarshal", ST(("A", I_), ("B", ST(("S", S_)))), 'm2{s1"a"%vs1"b"m1{s1"s"%s}}', None),
+    ("unmarshal", {"k": "map", "key": S_, "e": I_}, 'm2{s1"a"%v%s1}', None),
+    ("unmarshal", {"k": "slice", "e": I_}, 'a2{%vm1{%s1}}', {"map": 1}),
+    ("unmarshal", I_, 'a2{%vm1{%s1}}', {"map": 1}),
+    ("unmarshal", I_, 'a2{%vm1{%s1}}', {"map": 1, "struct": 1, "list": 1}),
+    ("unmarshal", ST(("A", {"k": "reg", "name": "Rec"}), ("B", S_)), 'm2{s1"a"%vs1"b"%s}', None),
+    ("unmarshal", ST(("A", {"k": "reg", "name": "Node"}), ("B", S_)), 'm2{s1"a"%vs1"b"%s}', None),
+    ("client", [I_, S_], 'Ra2{%v%s}z', None),
+    ("client", [I_, {"k": "slice", "e": S_}], 'Ra2{%va1{%s}}z', None),
+]
+EXP_TEXTS = ["1e100000000", "1e1000000000", "1e1000000", "1e-1000000", "1e-100000000", "1e16384", "1e16385", "1e65536", "1e308", "1e400",
+             "-1e99999999", "1E9999999", "1.5e7000000", "0x1p100000000", "0x1p-100000000", "0x1p1000000", "1p1000000", "1e9999999999999999999",
+             "9" * 40 + "e99999999", "1e+50000000", "0.1e100000001", "1e2147483647", "1e2147483648", "1e-2147483648", "1e4294967296",
+             "1_0e1_0000000", "0b1p100000000", "0o7p100000000", "Inf", "-inf", "1e", "e5", "1e5", "1/1e100000000", "1e100000000/1", "1e30"]
+EXP_DESTS = [{"k": k} for k in ("bigint", "bigfloat", "bigrat", "int", "int8", "int64", "uint", "uint64", "float32", "float64",
+                                "bool", "string", "bytes", "time", "uuid", "iface", "complex128")] + \
+            [{"k": "ptr", "e": {"k": "bigint"}}, {"k": "slice", "e": {"k": "bigint"}}, {"k": "map", "key": S_, "e": {"k": "bigrat"}},
+             ST(("A", {"k": "bigint"}), ("B", {"k": "bigrat"}))]
+LIST_POOL = ['1', 'i12;', 'd1.5;', 'n', 't', 'e', 'uA', 's3"abc"', 'b16"0123456789abcdef"', 'b0""', 'a1{s3"abc"}', 'a1{b1"x"}', 'a1{1}',
+             'a2{1d2.5;}', 'a{}', 'a1{a1{1}}', 'a1{a1{s1"q"}}', 'a1{n}', 'a2{s1"p"n}', 'm1{1s1"v"}', 'm1{s1"k"1}', 'm{}',
+             'c2"Pt"2{s1"x"s1"y"}o0{12}', 'o0{34}', 'c4"HKey"2{s2"iD"s4"name"}o1{1ua}', 'a1{o0{56}}', 'a1{o1{2ub}}',
+             'l123456789012345678901234567890;', 'a1{l5;}', 'a1{d1e5;}', 'g{3f257da1-0b85-48d6-8f5c-6cd13d2d60c9}', 'D20200102T030405Z',
+             'a1{D20200102Z}', 'a1{uA}', 'a1{t}', 'a1{m1{11}}', 'a1{m1{s1"k"1}}', 'r0;', 'r1;', 'a1{r1;}']
+KEY_POOL = ['c2"Pt"2{s1"x"s1"y"}o0{12}', 'c4"HKey"2{s2"iD"s4"name"}o0{1ua}',
+            'c3"Key"2{s2"iD"s6"labels"}o0{1c6"Labels"1{s5"names"}o1{a1{ua}}}', 'c3"Key"2{s2"iD"s6"labels"}o0{1n}',
+            'c6"Labels"1{s5"names"}o0{a1{ua}}', 'c6"Labels"1{s5"names"}o0{n}',
+            'c4"User"5{s4"name"s3"age"s4"tags"s5"extra"s1"p"}o0{ua1a1{ub}nn}', 'c4"User"1{s4"name"}o0{ua}',
+            'c4"User"1{s5"extra"}o0{a1{1}}', 'c4"User"1{s5"extra"}o0{m1{11}}', 'c4"User"1{s1"p"}o0{c2"Pt"1{s1"x"}o1{1}}',
+            'c4"Node"1{s4"name"}o0{un}', 'c4"Node"1{s4"kids"}o0{a1{n}}', 'c4"Node"1{s4"dict"}o0{m{}}', 'c4"Node"1{s3"any"}o0{a1{1}}',
+            'c4"Node"1{s3"any"}o0{c2"Pt"1{s1"x"}o1{1}}', 'c1"Z"1{s1"f"}o0{1}', 'a1{1}', 'm1{11}', 'b1"x"', 's1"k"', 'd1.5;', 'N', 'n',
+            'l99999999999999999999;', 'D20200102Z', 'g{3f257da1-0b85-48d6-8f5c-6cd13d2d60c9}']
+JSON_VALUES = ['null', 'true', '5', '-1', '1.5', '1e400', '1e-400', '123456789012345678901234567890', '"s"', '""', '"\\ud800"', '[]', '[1]',
+               '[1,2]', '[1,2,3]', '["a",2]', '[[1],[2]]', '[null,null]', '{}', '{"a":1}', '{"name":"u","age":"x"}', '[{"a":[{"b":null}]}]',
+               '[1e400]', '[' * 50 + ']' * 50, '"' + "x" * 300 + '"']
+JSON_RTS = [[], [{"k": "int"}], [{"k": "int"}, {"k": "int"}], [S_, I_, {"k": "int"}], [{"k": "reg", "name": "User"}],
+            [{"k": "slice", "e": {"k": "int"}}, {"k": "map", "key": S_, "e": {"k": "int"}}], [I_, I_], [{"k": "ptr", "e": {"k": "reg", "name": "Pt"}}, S_]]
+
+
+def generate_wide(ctx, g, seeds):
+    """the case space outside the model's: decoder options, value graphs with cycles and sharing into converting
+    destinations, numbers written with exponents into every numeric destination, the JSON-RPC codecs"""
+    rng, quick = ctx.rng, ctx.tier == "quick"
+    opts = all_opts()
+    lat = lambda s_: s_.encode("latin1")
+
+    # (f) the valid streams and the fixed corpus under other decoder options: every option alone, and random combinations
+    singles = one_opts()
+    base_cases = [c for c in g.cases if c["gen"] in ("valid", "fixed")]
+    for c in base_cases:
+        iface = (c["entry"] != "unmarshal") or has_iface(c["t"])
+        pick = (singles if iface else singles[:2]) + rng.sample(opts, (2 if quick else 8) if iface else 1)
+        for o in pick:
+            g.add("opt-" + c["gen"], dict(c, o=o), bytes.fromhex(c["hex"]))
+    mut = [c for c in g.cases if c["gen"] in ("truncate", "substitute", "delete", "insert", "field", "announce", "random")
+           and ((c["entry"] != "unmarshal") or has_iface(c["t"]))]
+    for c in rng.sample(mut, min(len(mut), 4000 if quick else 60000)):
+        g.add("opt-mutant", dict(c, o=rng.choice(opts if rng.random() < 0.5 else singles)), bytes.fromhex(c["hex"]))
+
+    # (g) value graphs: a container that holds itself (or the same container twice) through references, then a
+    # reference to it where the destination converts (string, []string, map keys and values, *string, struct fields)
+    rmax = 6 if quick else 9
+    for v in CYCLE_VALUES:
+        for (entry, dest, tmpl, o) in CYCLE_DESTS:
+            for ci in range(rmax):
+                for si in range(rmax):
+                    data = lat(tmpl.replace("%v", v.replace("%c", "r%d;" % ci)).replace("%s", "r%d;" % si))
+                    base = {"entry": entry, "mode": "ref", "t": dest} if entry == "unmarshal" else {"entry": entry, "rt": dest}
+                    if o:
+                        base["o"] = o
+                    g.add("cycle", base, data)
+    # the same container many times over: k levels, each holding the level below twice (2^k leaves in print)
+    for k in (12, 22, 30):
+        for off in range(4):
+            levels = "".join("m2{1r%d;2r%d;}" % (i + off, i + off) for i in range(k))
+            v = "a%d{m{}%s}" % (k + 1, levels)
+            for (entry, dest, tmpl, o) in CYCLE_DESTS[:7] + CYCLE_DESTS[12:]:
+                for si in range(4):
+                    data = lat(tmpl.replace("%v", v).replace("%s", "r%d;" % si))
+                    base = {"entry": entry, "mode": "ref", "t": dest} if entry == "unmarshal" else {"entry": entry, "rt": dest}
+                    g.add("share", base, data)
+
+    # (h) numbers written with an exponent, into every destination that parses or converts a number
+    for txt in EXP_TEXTS:
+        forms = ["d%s;" % txt, "l%s;" % txt, "i%s;" % txt, 's%d"%s"' % (len(txt), txt)]
+        for f in forms:
+            for dest in EXP_DESTS:
+                wrap = f
+                if dest["k"] == "slice":
+                    wrap = "a1{%s}" % f
+                elif dest["k"] == "map":
+                    wrap = 'm1{s1"k"%s}' % f
+                elif dest["k"] == "anon":
+                    wrap = 'm2{s1"a"%ss1"b"%s}' % (f, f)
+                g.add("exponent", {"entry": "unmarshal", "mode": "simple", "t": dest}, lat(wrap))
+            for o in ({"long": 4}, {"real": 2}, {"long": 4, "real": 2}, {"real": 1}, {"long": 3}):
+                g.add("exponent", {"entry": "unmarshal", "mode": "simple", "t": I_, "o": o}, lat(f))
+                g.add("exponent", {"entry": "unmarshal", "mode": "simple", "t": {"k": "slice", "e": I_}, "o": o}, lat("a2{%s%s}" % (f, f)))
+        # a string read once and converted where it is referred to again
+        g.add("exponent", {"entry": "unmarshal", "mode": "ref", "t": ST(("A", S_), ("B", {"k": "bigrat"}), ("C", {"k": "bigint"}), ("D", {"k": "bigfloat"}))},
+              lat('m4{s1"a"s%d"%s"s1"b"r1;s1"c"r1;s1"d"r1;}' % (len(txt), txt)))
+        g.add("exponent", {"entry": "client", "rt": [{"k": "bigint"}, {"k": "bigrat"}]}, lat("Ra2{d%s;s%d\"%s\"}z" % (txt, len(txt), txt)))
+
+    # (i) lists of lists of different element types, objects as keys: ListType / StructType / MapType pick Go types from the values
+    lo = [o for o in opts if o.get("list") or o.get("struct") or o.get("map")]
+    pairs = [(a, b) for a in LIST_POOL for b in LIST_POOL]
+    if quick:
+        pairs = rng.sample(pairs, 500) + [(a, b) for a in LIST_POOL[7:20] for b in LIST_POOL[7:20]]
+    for a, b in pairs:
+        for o in ({"list": 1}, {"list": 1, "struct": 1}, rng.choice(lo)):
+            for dest in (I_, {"k": "slice", "e": I_}):
+                for mode in ("simple", "ref"):
+                    g.add("lists", {"entry": "unmarshal", "mode": mode, "t": dest, "o": o}, lat("a2{%s%s}" % (a, b)))
+        o = rng.choice(lo)
+        g.add("lists", {"entry": "unmarshal", "mode": "ref", "t": I_, "o": o}, lat("a3{%s%s%s}" % (a, b, a)))
+        g.add("lists", {"entry": "unmarshal", "mode": "ref", "t": I_, "o": o}, lat("a1{a2{%s%s}}" % (a, b)))
+        g.add("lists", {"entry": "service", "svc": "a", "o": o}, lat('Cs4"echo"a1{a2{%s%s}}z' % (a, b)))
+        g.add("lists", {"entry": "client", "rt": [I_], "o": o}, lat('Ra2{%s%s}z' % (a, b)))
+    for kx in KEY_POOL:
+        for o in ({"struct": 1}, {"struct": 1, "map": 1}, {"struct": 1, "list": 1}, {"map": 1}, {"list": 1}, None):
+            for dest in (I_, {"k": "map", "key": I_, "e": I_}, {"k": "slice", "e": I_}):
+                for tmpl in ("m1{%sn}", "m2{%s1%s2}", "a1{m1{%s1}}", "m1{a1{%s}1}", "m1{m1{%s1}1}"):
+                    base = {"entry": "unmarshal", "mode": "ref", "t": dest}
+                    if o:
+                        base["o"] = o
+                    g.add("keys", base, lat(tmpl.replace("%s", kx)))
+            if o:
+                g.add("keys", {"entry": "service", "svc": "a", "o": o}, lat('Cs4"echo"a1{m1{%sn}}z' % kx))
+                g.add("keys", {"entry": "client", "rt": [I_], "o": o}, lat('Rm1{%sn}z' % kx))
+
+    # (j) the JSON-RPC codecs: well-formed bodies with hostile members, then byte-level damage of a few of them
+    bodies = []
+    for m in ("add", "echo", "sum", "user", "nope", "", "~", "*"):
+        for pv in JSON_VALUES:
+            bodies.append('{"jsonrpc":"2.0","id":1,"method":"%s","params":%s}' % (m, pv))
+    for extra in ('"id":"x"', '"id":1e400', '"id":null', '"id":99999999999999999999', '"headers":[]', '"headers":{"a":{"b":[1]}}',
+                  '"headers":{"simple":"x"}', '"headers":null', '"jsonrpc":2', '"jsonrpc":null', '"method":5', '"method":null',
+                  '"params":{"a":1}', '"params":"x"', '"params":[1,2],"params":[3]'):
+        bodies.append('{"jsonrpc":"2.0","id":1,"method":"add","params":[1,2],%s}' % extra)
+        bodies.append('{%s,"jsonrpc":"2.0","method":"add"}' % extra)
+    bodies += ['{}', '{', '{"', '{"jsonrpc":"2.0"}', '{"jsonrpc":"2.0","method":"add"}', '{"jsonrpc":"2.0","method":"sum"}',
+               '{"jsonrpc":"2.0","method":"sum","params":[1,2,3,4,5,6,7,8,9,10,11,12,13,14,15,16,17,18,19,20]}',
+               '{"jsonrpc":"2.0","method":"sum","params":[1,"x"]}', '{"jsonrpc":"2.0","method":"user","params":[{"Name":"u","Tags":[1]},["a"],{"k":"v"}]}',
+               '{"jsonrpc":"2.0","method":"user","params":[{"name":"u","age":3,"tags":["t"],"extra":{"a":[1]},"p":{"x":1}},["a"],{"k":1}]}',
+               '{"jsonrpc":"2.0","method":"add","params":[' + ",".join(["1"] * 2000) + ']}', '[' * 20000, '{"a":' * 20000, '{"params":' + '[' * 20000]
+    for b in bodies:
+        for svc in ("a", "b"):
+            g.add("jsonrpc", {"entry": "jservice", "svc": svc}, lat(b))
+    g.add("jsonrpc", {"entry": "jservice", "svc": "a", "o": {"list": 1, "struct": 1}}, lat('Cs4"echo"a1{a2{a1{s3"abc"}b1"x"}}z'))
+    replies = []
+    for rv in JSON_VALUES:
+        replies.append('{"jsonrpc":"2.0","id":1,"result":%s}' % rv)
+    for ev in ('null', '5', '"x"', '[]', '{}', '{"code":1}', '{"code":"x"}', '{"message":5}', '{"code":0,"message":"m","data":"!!!"}',
+               '{"code":0,"message":"m","data":"QUJD"}', '{"code":0,"message":"m","data":5}', '{"code":1e400,"message":"m"}',
+               '{"code":-32700,"message":"' + "x" * 500 + '"}', '{"message":"m"}'):
+        replies.append('{"jsonrpc":"2.0","id":1,"error":%s}' % ev)
+        replies.append('{"jsonrpc":"2.0","id":1,"result":5,"error":%s}' % ev)
+        replies.append('{"jsonrpc":"2.0","id":1,"result":[1,2],"error":%s}' % ev)
+    replies += ['{}', '{', '', 'null', '[]', '5', '{"result":5}', '{"result":[1,"x"]}', '{"headers":{"a":1},"result":[1,2]}', '{"headers":[],"result":1}',
+                '{"headers":{"a":{"b":{"c":[1,{"d":null}]}}},"result":null}', '{"result":' + '[' * 20000, '{"result":[' + ",".join(["1"] * 3000) + ']}']
+    for b in replies:
+        for rt in JSON_RTS:
+            g.add("jsonrpc", {"entry": "jclient", "rt": rt}, lat(b))
+    good = ['{"jsonrpc":"2.0","id":1,"method":"add","params":[1,2]}', '{"jsonrpc":"2.0","id":7,"headers":{"a":1},"method":"user","params":[{"name":"u"},["a"],{"k":1}]}']
+    for b in good:
+        bb = lat(b)
+        for k in range(len(bb)):
+            g.add("jsonrpc", {"entry": "jservice", "svc": "a"}, bb[:k])
+        for _ in range(60 if quick else 1500):
+            p_ = rng.randrange(len(bb))
+            g.add("jsonrpc", {"entry": "jservice", "svc": rng.choice("ab")}, bb[:p_] + bytes([rng.choice(b'{}[]",:0-9ntfe\\ \x00\xff')]) + bb[p_ + 1:])
+    goodr = ['{"jsonrpc":"2.0","id":1,"result":[1,"two"]}', '{"jsonrpc":"2.0","id":1,"headers":{"a":1},"result":{"name":"u","age":3}}',
+             '{"jsonrpc":"2.0","id":1,"error":{"code":0,"message":"m","data":"QUJD"}}']
+    for b in goodr:
+        bb = lat(b)
+        for k in range(len(bb)):
+            g.add("jsonrpc", {"entry": "jclient", "rt": rng.choice(JSON_RTS)}, bb[:k])
+        for _ in range(60 if quick else 1500):
+            p_ = rng.randrange(len(bb))
+            g.add("jsonrpc", {"entry": "jclient", "rt": rng.choice(JSON_RTS)}, bb[:p_] + bytes([rng.choice(b'{}[]",:0-9ntfe\\ \x00\xff')]) + bb[p_ + 1:])
+
+
 # ------------------------------------------------------------------ comparison
+
+WIDE_FAMILY = {"opt-valid": "options", "opt-fixed": "options", "opt-mutant": "options", "cycle": "graphs", "share": "graphs",
+               "exponent": "exponents", "lists": "typed-containers", "keys": "typed-containers", "jsonrpc": "jsonrpc"}
+
+
+def slow_bound(n):
+    return 2 * 10 ** 8 + 5000 * n
+
 
 def expected_from_model(m, n=0):
     """what the model predicts of the implementation: (kind, detail)
@@ -723,6 +998,9 @@ def agree(exp, icl, ikey, case_len, m, o):
         return None
     if kind == "unsure":
         return None
+    if kind == "panic" and det == "big-exp":
+        # the number is built in full: out of proportion for a large exponent, unremarkable for a moderate one
+        return True if (icl == "fatal" or (ikey or "").startswith(("overalloc", "slow"))) else (None if icl in ("value", "error") else False)
     if kind == "panic":
         want = SITE_KEY.get(det, det)
         if det in FATAL_SITES:
@@ -778,7 +1056,10 @@ def run(ctx):
     hv.build_harness("c04")
     hv.build_modelrun("c04")
     ctx.assumptions += [
-        "in-memory input only (NewDecoder / ResetBytes: reader == nil), default decoder options",
+        "in-memory input only (NewDecoder / ResetBytes: reader == nil)",
+        "the Coq model covers the hprose codec under the default decoder options (and any options where the destination holds no "
+        "interface{}); other options, value graphs (cycles, sharing), registered types beyond Pt/User and the JSON-RPC codecs are "
+        "judged by the property oracle alone (no panic, no fatal error, no hang, allocation and time in proportion, sane value)",
         "library parsers (strconv, math/big, uuid, time layouts) are oracles: their accept/reject answers are "
         "obtained from the real library per text and handed to the model as a finite table; the theorems hold for every oracle",
         "model counters (steps, alloc) bound the model; wall time / TotalAlloc of the executor only validate that they track reality",
@@ -804,14 +1085,20 @@ def run(ctx):
 
     T["model"] = round(time.time() - t0, 1); t0 = time.time()
     # schedule: cases the model expects to blow up go to a separate, budgeted batch
-    light, heavy, alone = [], [], []
+    light, heavy, alone, wide = [], [], [], {}
     for c in cases:
         m = model[c["id"]]
         if m["class"].startswith("panic:") and m["class"][6:] in FATAL_SITES:
             alone.append(c)
             continue
-        big = (m.get("steps", 0) > HEAVY_STEPS or max(m.get("alloc", 0), m.get("rsv", 0)) > HEAVY_ALLOC or len(c["hex"]) > 400000)
-        (heavy if big else light).append(c)
+        big = (m.get("steps", 0) > HEAVY_STEPS or max(m.get("alloc", 0), m.get("rsv", 0)) > HEAVY_ALLOC or len(c["hex"]) > 400000
+               or m["class"] == "panic:big-exp")
+        if big:
+            heavy.append(c)
+        elif c["gen"] in WIDE_FAMILY:
+            wide.setdefault(WIDE_FAMILY[c["gen"]], []).append(c)
+        else:
+            light.append(c)
     budget = 12 if ctx.tier == "quick" else 60
     hang_budget = 3 if ctx.tier == "quick" else 14
     chosen, sig_seen = [], {}
@@ -819,6 +1106,8 @@ def run(ctx):
         m = model[c["id"]]
         hang = m.get("steps", 0) >= HANG_STEPS and max(m.get("alloc", 0), m.get("rsv", 0)) < (1 << 30)
         sig = (c["entry"], json.dumps(c.get("t") or c.get("rt") or c.get("svc")), "hang" if hang else "mem", c["hex"][:2])
+        if m["class"] == "panic:big-exp":
+            sig = ("big-exp", c["t"]["k"] if c.get("t") else c["entry"], c["hex"][:2])
         if sig in sig_seen:
             continue
         if hang:
@@ -837,6 +1126,17 @@ def run(ctx):
     T["impl_heavy"] = round(time.time() - t0, 1); t0 = time.time()
     obs.update(obs2)
     crashes.update(crashes2)
+    # the cases outside the model's configuration: one batch (and one crash budget) per family, so that a defect in
+    # one family cannot use up the executions of another
+    wide_note = {}
+    for fam in sorted(wide):
+        batch = wide[fam]
+        o3, c3 = run_impl_frames(batch, 12 if ctx.tier == "quick" else 120, 2 if ctx.tier == "quick" else 12)
+        obs.update(o3)
+        crashes.update(c3)
+        wide_note[fam] = {"cases": len(batch), "not_run": sum(1 for v in c3.values() if v[1] == -1)}
+    ctx.note("wide_families", wide_note)
+    T["impl_wide"] = round(time.time() - t0, 1); t0 = time.time()
     ctx.rng.shuffle(alone)
     alone_run = sorted(alone[:(8 if ctx.tier == "quick" else 40)], key=lambda c: len(c["hex"]))
     for c in alone_run:
@@ -865,7 +1165,20 @@ def run(ctx):
     ctx.note("checkptr_pass", {"cases": len(sample), "unsafe_pointer_faults": n_cp})
     T["impl_checkptr"] = round(time.time() - t0, 1); t0 = time.time()
     ctx.note("phase_seconds", T)
-    ran = {c["id"] for c in light} | {c["id"] for c in chosen} | {c["id"] for c in alone_run}
+    ran = {c["id"] for c in light} | {c["id"] for c in chosen} | {c["id"] for c in alone_run} | {c["id"] for b in wide.values() for c in b}
+    # time: a case far slower than its length explains is run again, alone, twice; it counts when it is slow every time
+    slow = {}
+    by_id = {c["id"]: c for c in cases}
+    suspects = [cid for cid, o in obs.items() if cid in ran and cid in by_id and o.get("ns", 0) > slow_bound(len(by_id[cid]["hex"]) // 2)]
+    for cid in sorted(suspects, key=lambda i: -obs[i]["ns"])[:(10 if ctx.tier == "quick" else 60)]:
+        best = obs[cid]["ns"]
+        for _ in range(2):
+            o1, c1 = run_impl_frames([by_id[cid]], 1)
+            if o1.get(cid) is not None:
+                best = min(best, o1[cid]["ns"])
+        if best > slow_bound(len(by_id[cid]["hex"]) // 2):
+            slow[cid] = best
+    ctx.note("time_oracle", {"suspects": len(suspects), "confirmed": len(slow), "bound": "0.2 s + 5 us per input byte, three runs"})
 
     failing = {}      # key -> (len, case, what, model)
     disagree = {}
@@ -884,8 +1197,13 @@ def run(ctx):
         icl, ikey, what = impl_verdict(c, o, cr)
         if icl == "builderr":
             raise hv.EnvError("c04 executor cannot build a case: " + what)
+        if ikey is None and c["id"] in slow:
+            own = norm_owner(loop_owner([f for f in (o.get("alloc_at") or "").split(";") if f]))
+            ikey = "slow:" + (own if own != "?" else c["entry"])
+            what = "%.2f s (fastest of three runs) for %d input bytes" % (slow[c["id"]] / 1e9, len(c["hex"]) // 2)
         n = len(c["hex"]) // 2
-        ctx.count_case("%s|%s|%s|%s" % (c["entry"], c["hex"], json.dumps(c.get("t") or c.get("rt")), c.get("mode") or c.get("svc")),
+        ctx.count_case("%s|%s|%s|%s|%s" % (c["entry"], c["hex"], json.dumps(c.get("t") or c.get("rt")), c.get("mode") or c.get("svc"),
+                                           json.dumps(c.get("o"), sort_keys=True) if c.get("o") else ""),
                        nontrivial=n > 0)
         ctx.bump("impl_outcomes", icl)
         ctx.bump("model_outcomes", m["class"].split(":")[0] + (":" + m["class"].split(":")[1] if m["class"].startswith("panic") else ""))
